@@ -408,7 +408,7 @@ class MultiIndexLocation(IndexLocation):
 
     def detachedCopy(self) -> "MultiIndexLocation":
         loc = MultiIndexLocation(None)
-        loc.extend(self._locations)
+        loc.extend(subLoc.detachedCopy() for subLoc in self._locations)
         return loc
 
     def associate(self, grid: "Grid"):
